@@ -236,6 +236,15 @@ def run(ctx):
             terms.append(f"chk_history {created} [] [({cz(rc)}, [])]")
         keep.append((key, ob, created))
         ctx.traces += 1
+    # arrays beyond the 80 MiB default chunk (direct oracle only: too large for a Coq literal)
+    bigs = [dict(kind='asarray2d')] if ctx.quick else [dict(kind=k) for k in ('asarray2d', 'fill1d', 'asarray1d', 'copy')]
+    for case, ob in zip(bigs, ctx.run_impl(bigs, 'big', shards=len(bigs), timeout=1800)):
+        key = dict(form='big:' + case['kind'])
+        if 'harness_error' in ob:
+            ctx.fail('harness-error', key, observed=ob); continue
+        ctx.seen(key); ctx.count('big-array'); ctx.evaluations += 1
+        if not ob['ok']:
+            ctx.fail('creation-differs:big', key, expected='the NumPy reference, default chunk length', observed=ob['detail'])
     if keep:
         k, ob, _ = keep[len(keep) // 2]
         ctx.sample(dict(case=k, result=ob['res'][:2], shape=ob.get('fresh', {}).get('shape'),
